@@ -339,3 +339,23 @@ PROPS["C09"] = dict(
                "mantissa of the binary logarithm (modernc mathutil) is opaque: entropy values are inputs of the model.",
     assumptions=["the dominant chains record their own running totals correctly (parentEntropy / parentDeltaEntropy of region and prime context)"],
 )
+
+PROPS["C08"] = dict(
+    lean_modules=["QuaiVerif.Props.C08"],
+    areas=[dict(name="c08", n_quick=40, n_thorough=1500, seeds_thorough=3, n_search=300, timeout=3000)],
+    facts=["wo_header_fields", "wo_seal_keys", "wo_seal_keys_conditional", "header_fields", "header_seal_keys", "validate_body_compares"],
+    rule="a case is one random sealed-header object: 12 (proof-of-work hash, difficulty) pairs through the real HeaderChain.VerifySeal (blake3pow) and "
+         "CheckWorkThreshold - difficulties 0, -1, 1, 2, 3, 2^255, 2^256-1, 2^256, 2^256+1, 2^300, random 1-24 bit values, one really mined header - "
+         "then every setter of WorkObjectHeader (except nonce / mix hash / AuxPoW) and of the body Header applied to a copy: if the encoding changes the "
+         "seal hash resp. header hash must change; per run 2 (thorough: 12) KAWPOW nonce triples (n, n with a high bit flipped, n with a low bit flipped) "
+         "through ComputePowLight against the cache-free share verifier",
+    level_text="'accepted seal <=> hash <= floor(2^256 / difficulty)' with 'hash * difficulty <= 2^256', monotonicity in difficulty, the boundary values and "
+               "'a seal is a work share' are Lean theorems; 'the seal pre-image covers every consensus field of the sealed header', 'the contained header hash "
+               "covers every field of the body header' and 'ValidateBody ties the roots to the body' are theorems over tables regenerated from SealEncode, the "
+               "struct definitions and ValidateBody; the arithmetic is run against the real functions on real hashes.",
+    level_note="PARTIAL: the AuxPoW acceptance rules (donor coinbase commits to the seal hash, merkle branch, template signature; verifyHeader's AuxPoW branch) "
+               "are not exercised: building donor headers with valid template signatures needs the signing keys; those rules are covered only by the T1 "
+               "table (SealHash / MerkleRoot / VerifySignature appear among verifyHeader's rejecting comparisons, see C09's fact). Collision resistance of "
+               "blake3 / keccak and the KAWPOW / ProgPoW kernels themselves are trusted; only the caching around KAWPOW is tested.",
+    assumptions=["the hash functions are collision resistant", "protobuf encoding of the seal pre-image is injective on its fields (C14)"],
+)
